@@ -4,6 +4,8 @@
 pub struct RArr { pub len: int, pub at: spec_fn(int) -> real }
 pub struct RArr2 { pub n: int, pub m: int, pub at: spec_fn(int, int) -> real }
 pub enum LErr { E }
+/// L23: a value the lifter could not model (tolerant lifts)
+#[verifier::external_body] pub struct LOpaque { _p: () }
 /// opaque records (parameter records etc.) and arrays of them
 #[verifier::external_body] pub struct Rec { _p: () }
 pub struct OArr { pub len: int, pub at: spec_fn(int) -> Rec }
